@@ -46,11 +46,12 @@ def _ids(draw, n, allow_n=False):
     """One identifier for a table with n rows."""
     if n > 0 and draw(st.integers(0, 99)) < 62:
         return draw(st.integers(0, n - 1))
-    return draw(st.sampled_from([-2, -1, 0, n - 1, n, n + 1, I31, 2**31, -(2**31) - 1, 2**63, n + 7]))
+    return draw(st.sampled_from([-2, -1, 0, n - 1, n, n + 1, I31, 2**31, -(2**31), -(2**31) - 1, 2**63, n + 7,
+                                 -3, -I31]))
 
 
 def _idlist(draw, n, maxlen=4):
-    k = draw(st.integers(0, maxlen))
+    k = draw(st.sampled_from([0, 1, 1, 1, 2, 2, 3, maxlen]))
     out = [_ids(draw, n) for _ in range(k)]
     if out and draw(st.integers(0, 5)) == 0:
         out.append(out[0])  # duplicate
@@ -812,6 +813,30 @@ def boundary_points(tskit, ts, t):
         ("union(node_mapping=[n..])", lambda: ts.union(ts, [n] * n) if n else (_ for _ in ()).throw(ValueError("empty"))),
         ("split_edges(population=P)", lambda: ts.split_edges(0.5, population=P)),
         ("sort(edge_start=E+1)", lambda: t.copy().sort(edge_start=E + 1)),
+        # negative identifiers in id lists are out of range like any other
+        ("simplify(samples=[-1])", lambda: ts.simplify([-1])),
+        ("subset([-1])", lambda: ts.subset([-1])),
+        ("tables.subset([-1], remove_unreferenced=False)", lambda: t.copy().subset([-1], remove_unreferenced=False)),
+        ("tables.subset([0..,n], remove_unreferenced=False)", lambda: t.copy().subset(list(range(n)) + [n], remove_unreferenced=False)),
+        ("ibd_segments(within=[-1])", lambda: ts.ibd_segments(within=[-1])),
+        ("ibd_segments(between=[[-1],[0]])", lambda: ts.ibd_segments(between=[[-1], [0]])),
+        ("link_ancestors(samples=[-1])", lambda: t.link_ancestors([-1], [0])),
+        ("variants(samples=[-1])", lambda: list(ts.variants(samples=[-1]))),
+        ("genotype_matrix(samples=[-2])", lambda: ts.genotype_matrix(samples=[-2])),
+        ("Tree(tracked_samples=[-1])", lambda: tskit.Tree(ts, tracked_samples=[-1])),
+        ("genealogical_nearest_neighbours(focal=[-1])", lambda: ts.genealogical_nearest_neighbours([-1], [smp] if smp else [[0]])),
+        ("mean_descendants([[-1]])", lambda: ts.mean_descendants([[-1]])),
+        ("diversity([[-1]])", lambda: ts.diversity([[-1]])),
+        ("divergence_matrix(ids=[-1])", lambda: ts.divergence_matrix([-1])),
+        ("count_topologies([[-1]])", lambda: ts.first().count_topologies([[-1]])),
+        ("ld_matrix(sites=[[-1],[0]])", lambda: ts.ld_matrix(sites=[[-1], [0]])),
+        ("ld_matrix(sites=[[0],[-1]])", lambda: ts.ld_matrix(sites=[[0], [-1]])),
+        ("ld_matrix(sites=[[-2147483648],[0]])", lambda: ts.ld_matrix(sites=[[-(2**31)], [0]])),
+        ("ld.r2(-1,0)", lambda: tskit.LdCalculator(ts).r2(-1, 0)),
+        ("Variant.decode(-1)", lambda: tskit.Variant(ts).decode(-1)),
+        ("genetic_relatedness_vector(nodes=[-1])", lambda: ts.genetic_relatedness_vector(
+            np.ones((len(smp), 1)), mode="branch", centre=False, nodes=[-1])),
+        ("union(node_mapping=[-2..])", lambda: ts.union(ts, [-2] * n) if n else (_ for _ in ()).throw(ValueError("empty"))),
         ("nodes.truncate(n+1)", lambda: t.copy().nodes.truncate(n + 1)),
     ]
     return pts
